@@ -18,6 +18,16 @@ from rsx.interp import Interp
 from vlib import native
 
 ESC_L, ESC_R, DISP_L, DISP_R, DBG_L, DBG_R = "\ue000", "\ue001", "\ue002", "\ue003", "\ue004", "\ue005"
+NUM_L, NUM_R = "\ue006", "\ue007"
+
+
+def num_marker(v):
+    """std's `{}` text of a number, as a marker naming the term that is formatted (part C)."""
+    if isinstance(v, Float):
+        return NUM_L + "F:" + (repr(v.v) if not hasattr(v.v, "sexpr") else v.v.sexpr()) + NUM_R
+    if isinstance(v, Int):
+        return NUM_L + "I:" + (str(v.v) if v.conc else v.v.sexpr()) + NUM_R
+    return None
 
 
 def esc(tok):
@@ -43,12 +53,23 @@ def format_model(I, fmt, args, node):
             out += "}"
             continue
         spec = m.group(1)
+        if re.fullmatch(r"[A-Za-z_][A-Za-z0-9_]*", spec or ""):
+            # inline named capture `{name}` of a number in scope (part C); anything else stays opaque
+            sc, found = I.lookup(spec)
+            mk = num_marker(I.deref(sc[spec])) if found else None
+            if mk is None:
+                return None
+            out += mk
+            continue
         if spec not in ("", ":?"):
-            return None         # named capture or other formatting: leave to the opaque default
+            return None         # other formatting: leave to the opaque default
         if i >= len(vals):
             return None
         v = vals[i]
         i += 1
+        if spec == "" and num_marker(v) is not None:
+            out += num_marker(v)
+            continue
         if not (isinstance(v, Str) and v.s is not None and all(c.conc for c in v.chars())):
             return None
         txt = "".join(chr(c.v) for c in v.chars())
@@ -84,7 +105,18 @@ def run_display(ctx, P, kind, n):
         v, t = child(f"V{i}")
         labels[id(v.fields["0"])] = t
         kids.append(v)
-    if kind == "String":
+    want_alt = None
+    if kind == "Float":
+        fv = Float(z3.FP("c12_f", z3.Float64()))
+        ctx.assume(z3.Not(z3.Or(z3.fpIsNaN(fv.v), z3.fpIsInf(fv.v))))
+        val = mk_value(Enum("Value_", "Float", [fv]))
+        want = num_marker(fv)
+        want_alt = want + ".0"
+    elif kind == "Int":
+        iv = Int(z3.BitVec("c12_i", 64), 64, True)
+        val = mk_value(Enum("Value_", "Int", [iv]))
+        want = num_marker(iv)
+    elif kind == "String":
         val = mk_value(Enum("Value_", "String", [Str("S0")]))
         want = esc("S0")
     elif kind == "List":
@@ -108,6 +140,8 @@ def run_display(ctx, P, kind, n):
         cs = r.chars()
         if all(c.conc for c in cs):
             got = "".join(chr(c.v) for c in cs)
+    if want_alt is not None and got == want_alt:
+        want = want_alt
     return {"I": I, "got": got, "want": want, "kind": kind, "n": n}
 
 
@@ -118,9 +152,25 @@ def lit(s):
     return '"' + "".join({'"': '\\"', "\n": "\\n", "\\": "\\\\"}.get(ch, ch) for ch in s) + '"'
 
 
+FLOATS = ["1.0", "2.0", "0.5", "0.1", "123456789.125", "9500000000000000000.0", "9223372036854775808.0", "9999999999999997952.0",
+          "10000000000000000000.0", "1000000000000000000000.0", "18446744073709551616.0", "4503599627370497.5",
+          "0.000000000000000000001", "(0.0 *. (0.0 -. 1.0))", "(0.0 -. 9500000000000000000.0)", "(0.0 -. 2.5)"]
+INTS = ["0", "1", "(0 - 1)", "9223372036854775807", "((0 - 9223372036854775807) - 1)", "1000000"]
+
+
 def native_roundtrip(kind):
     """Print a value of this kind holding awkward strings in every string position and read the printed text back."""
     bad = []
+    if kind in ("Float", "Int"):
+        for src in (FLOATS if kind == "Float" else INTS):
+            for wrap in ("{}", "[{}]", "Some({})"):
+                e = wrap.format(src)
+                code1, out1, err1 = native.run_c(f"println(string_repr({e}))")
+                printed = out1.rstrip("\n")
+                code2, out2, err2 = native.run_c(f"let v = {printed}\nprintln(string_repr(v == {e}))")
+                if not (code1 == 0 and code2 == 0 and out2.strip() == "True"):
+                    bad.append({"value": e, "printed": printed[:80], "reread": (out2 + err2)[:160]})
+        return {"reproduced": bool(bad), "artefact": bad[:2], "detail": f"{len(bad)} printed numbers do not read back as equal values"}
     for s in NASTY:
         forms = {"String": [lit(s)], "List": [f"[{lit(s)}, \"z\"]"], "Tuple": [f"({lit(s)}, 1)", f"({lit(s)},)"],
                  "Dict": [f"Dict[{lit(s)} => 1]", f"Dict[\"k\" => {lit(s)}]", f"Dict[{lit(s)} => [{lit(s)}]]"]}[kind]
@@ -142,8 +192,12 @@ def run_display_kernel(C, P):
         "positional `{}` / `{:?}` placeholders over text; enum, struct, function and number printing are outside this kernel",
     ]
     n_ok = 0
-    for kind in ("String", "List", "Tuple", "Dict"):
-        for n in ([0] if kind == "String" else range(0, max_n + 1)):
+    C.bounds["display_numbers"] = {"Float": "any finite f64 (symbolic)", "Int": "any i64 (symbolic)"}
+    C.assumptions += ["part C (numbers): std's `{}` formatting of f64 / i64 is a marker naming the formatted term (trusted to be the shortest "
+                      "round-trip text); decided: the printed text is that marker of the value itself, for floats optionally followed by `.0` "
+                      "(whether `.0` is needed is read off the real text and is covered by the native round trip only)"]
+    for kind in ("Float", "Int", "String", "List", "Tuple", "Dict"):
+        for n in ([0] if kind in ("String", "Float", "Int") else range(0, max_n + 1)):
             try:
                 res = explore(lambda ctx, kind=kind, n=n: run_display(ctx, P, kind, n), max_paths=2000)
             except (Unsupported, UnwindExceeded) as ex:
@@ -161,14 +215,14 @@ def run_display_kernel(C, P):
                 C.note_interp(v["I"])
                 n_ok += 1
                 shown = (v["got"] or "<not text>").replace(ESC_L, "ESC(").replace(ESC_R, ")").replace(DISP_L, "DISP(") \
-                    .replace(DISP_R, ")").replace(DBG_L, "DEBUG(").replace(DBG_R, ")")
+                    .replace(DISP_R, ")").replace(DBG_L, "DEBUG(").replace(DBG_R, ")").replace(NUM_L, "FMT(").replace(NUM_R, ")")
                 C.prove(f"display/{kind}/{n}/path{i}:literal-template", r.pc, v["got"] == v["want"], site=f"display/{kind}/template",
                         what=f"a {kind} with {n} elements prints as {shown!r}, which is not the literal template over escaped strings",
                         replay=lambda m, kind=kind: native_roundtrip(kind), model_desc=lambda m, shown=shown: shown)
                 if i == 0 and n == max_n:
                     C.sample({"display_kind": kind, "elements": n, "printed_template": shown})
     C.reach("display/templates-checked", [z3.BoolVal(n_ok > 0)])
-    for kind in ("String", "List", "Tuple", "Dict"):
+    for kind in ("Float", "Int", "String", "List", "Tuple", "Dict"):
         rep = native_roundtrip(kind)
         if rep["reproduced"]:
             C.validation_mismatch(f"awkward strings in a {kind} do not round-trip on the unchanged tree: {rep['artefact']}")
